@@ -692,6 +692,12 @@ func sameGuard(cz *canonizer, a, b guard) bool {
 // flagImplies: whenever the boolean f is true, the map/pointer v is non-nil — a relational invariant between two
 // variables that are updated together (found-flag pairing): checked edge-wise over phis of the same block.
 func (p *Prog) flagImplies(fn *ssa.Function, cz *canonizer, f, v ssa.Value, seen map[[2]ssa.Value]bool) bool {
+	return p.flagImpliesAt(fn, cz, f, v, nil, seen)
+}
+
+// flagImpliesAt: at is the point at which the pair (f, v) is current — the end of the predecessor block over whose edge both
+// values flow into their phis; a comma-ok assertion result is a non-nil map there if the edge is under its ok test.
+func (p *Prog) flagImpliesAt(fn *ssa.Function, cz *canonizer, f, v ssa.Value, at ssa.Instruction, seen map[[2]ssa.Value]bool) bool {
 	k := [2]ssa.Value{f, v}
 	if seen[k] {
 		return true
@@ -705,6 +711,9 @@ func (p *Prog) flagImplies(fn *ssa.Function, cz *canonizer, f, v ssa.Value, seen
 			return false
 		}
 		if in, ok := v.(ssa.Instruction); ok {
+			if at != nil {
+				in = at
+			}
 			okv, _ := p.mapNonNil(fn, cz, v, in)
 			return okv
 		}
@@ -714,7 +723,8 @@ func (p *Prog) flagImplies(fn *ssa.Function, cz *canonizer, f, v ssa.Value, seen
 	pv, ok2 := v.(*ssa.Phi)
 	if ok1 && ok2 && pf.Block() == pv.Block() {
 		for i := range pf.Edges {
-			if !p.flagImplies(fn, cz, pf.Edges[i], pv.Edges[i], seen) {
+			pred := pf.Block().Preds[i]
+			if !p.flagImpliesAt(fn, cz, pf.Edges[i], pv.Edges[i], pred.Instrs[len(pred.Instrs)-1], seen) {
 				return false
 			}
 		}
@@ -723,7 +733,7 @@ func (p *Prog) flagImplies(fn *ssa.Function, cz *canonizer, f, v ssa.Value, seen
 	if ok1 && !ok2 {
 		// v does not change where f merges: every true-capable edge of f must imply v
 		for i := range pf.Edges {
-			if !p.flagImplies(fn, cz, pf.Edges[i], v, seen) {
+			if !p.flagImpliesAt(fn, cz, pf.Edges[i], v, at, seen) {
 				return false
 			}
 		}
